@@ -58,3 +58,29 @@ Definition judge_regex (c : str * outcome str * list (str * bool)) : N :=
               end in
   bits (ostr_eqb (to_regex [] v) r) spec true
        (existsb (fun x => mem x regex_meta) s).
+
+(* suite slice: (source, start, stop, impl result of SigmaString(s)[start:stop]) *)
+From Coq Require Import ZArith.
+From PS Require Import Model.Slice.
+Definition osstr_eqb (a b : outcome sstring) : bool :=
+  match a, b with
+  | Ok x, Ok y => parts_eqb x y
+  | SigmaErr x, SigmaErr y => N.eqb x y
+  | Crash x, Crash y => N.eqb x y
+  | _, _ => false
+  end.
+Definition judge_slice (c : str * option Z * option Z * outcome sstring) : N :=
+  let '(s, start, stop, r) := c in
+  let v := parse true s in
+  let l := iparse s in
+  let len := Z.of_nat (length l) in
+  let st := match start with Some x => if (x <? 0)%Z then (len + x)%Z else x | None => 0%Z end in
+  let sp := match stop with Some x => if (x <? 0)%Z then (len + x)%Z else x | None => len end in
+  let oob := ((st <? 0) || (sp <? 0) || (len <? sp))%Z in
+  let spec := match r with
+              | Ok p => option_eqb items_eqb (spec_slice l start stop) (Some (items p))
+              | Crash _ => oob
+              | SigmaErr _ => false
+              end in
+  let dom := negb oob && (match start, stop with None, _ | _, None => true | _, _ => false end) in
+  bits (osstr_eqb (getitem v start stop) r) spec dom (existsb is_special s).
